@@ -48,6 +48,18 @@ example :
     (read true { s := { data := [0, 0, 0, 3, 0, 0, 0, 3, 0, 0, 0, 10, 0, 0, 0, 0, 0, 0, 0, 100, 0, 0, 0, 5,
                                  0xaa, 0xbb, 0xcc], fail := false }, linkType := 4, bufCap := 0 }).out = .err := by decide
 
+/-- The safety above is not bought by rejecting everything: a well-formed RFC 1761 record — data,
+    any pad, and in particular a TRUNCATED capture (`data.length < orig`, the case on which the
+    unfixed code panics) — is returned as its packet (µs → ns), the pad is skipped and the
+    stream is left at the next record.  (`Rec`, `WfRec`, `encRec`: Gp/Lemmas/Snoop.lean.) -/
+theorem snoop_reads_record (zc : Bool) (lt cap : Nat) (rc : Rec) (rest : Bytes) (f : Bool) (h : WfRec rc) :
+    let r : Reader := { s := { data := encRec rc ++ rest, fail := f }, linkType := lt, bufCap := cap }
+    (read zc r).out = .pkt { sec := rc.sec, nsec := rc.usec * 1000, caplen := rc.data.length, len := rc.orig, data := rc.data } ∧
+    (read zc r).r.s = { data := rest, fail := f } ∧ (read zc r).r.linkType = lt :=
+  read_encRec zc lt cap rc rest f h
+
+example : WfRec { orig := 1500, drops := 0, sec := 100, usec := 5, data := [0xaa, 0xbb, 0xcc], pad := [0] } := by decide
+
 /-- No hang: reading until the first non-packet outcome terminates (the function is total) and
     returns at most one packet per 24 bytes of input. -/
 theorem snoop_read_terminates (zc : Bool) (r : Reader) : 24 * (readAll zc r).1.length ≤ r.s.data.length :=
